@@ -928,6 +928,8 @@ class BaseModel(ModelInterface):
                 empty_df_like_ests = pd.DataFrame(
                     [], index=ix, columns=estimations.columns
                 )
+                # repeated (ID, TIME) requests produce repeated (identical) rows: keep one before joining back
+                estimations = estimations[~estimations.index.duplicated()]
                 estimations = empty_df_like_ests[[]].join(
                     estimations, on=["ID", "TIME"]
                 )
